@@ -16,7 +16,13 @@ import (
 	"time"
 )
 
-const verifRoot = "/verif"
+// verifRoot is the framework directory: VERIF_ROOT (set by ./check to its own directory) or /verif.
+var verifRoot = func() string {
+	if r := os.Getenv("VERIF_ROOT"); r != "" {
+		return r
+	}
+	return "/verif"
+}()
 const tlaJar = "/opt/veriftools/tla/tla2tools.jar"
 const cmJar = "/opt/veriftools/tla/CommunityModules-deps.jar"
 
